@@ -83,7 +83,7 @@ theorem queueRemainder_indep (data : Bytes) (nwrote : Nat) (fault : Bool) :
   unfold queueRemainder
   apply indep_ite (fun _ _ => Iff.rfl)
   · have h1 : Indep (fun c : Conn => if hwmCross c.outBuf.length (data.length - nwrote) c.mark c.hasHWM
-        then enqueue c (.highWater (c.outBuf.length + (data.length - nwrote))) else c) :=
+        then enqueue c (.highWater (bindCb hwmBind c.hwmId) (c.outBuf.length + (data.length - nwrote))) else c) :=
       indep_ite (fun _ _ => Iff.rfl)
         (indep_of_fields _ (fun _ _ => rfl)) indep_self
     have h2 : Indep (fun c1 : Conn => { c1 with outBuf := c1.outBuf ++ data.drop nwrote }) :=
@@ -98,8 +98,9 @@ theorem sendDirect_indep (data : Bytes) (r : WriteRes) : Indep (fun c => sendDir
   | took n =>
     have h1 : Indep (fun c : Conn => { c with wrote := c.wrote ++ data.take n }) :=
       indep_of_fields _ (fun _ _ => rfl)
-    have h2 : Indep (fun c1 : Conn => if sendWholeWC (data.length - n) c1.hasWC then enqueue c1 .writeComplete else c1) :=
-      indep_ite (fun _ _ => Iff.rfl) (enqueue_indep _) indep_self
+    have h2 : Indep (fun c1 : Conn => if sendWholeWC (data.length - n) c1.hasWC
+        then enqueue c1 (.writeComplete (bindCb wcBindSend c1.wcId)) else c1) :=
+      indep_ite (fun _ _ => Iff.rfl) (indep_of_fields _ (fun _ _ => rfl)) indep_self
     exact indep_comp (indep_comp h1 h2) (queueRemainder_indep data n false)
   | err e => exact queueRemainder_indep data 0 _
 
@@ -168,6 +169,8 @@ theorem act_indep (foreign : Bool) (a : Act) : Indep (fun c => act c foreign a) 
     exact indep_ite (fun _ _ => Iff.rfl) (indep_of_fields _ (fun _ _ => rfl)) (indep_of_fields _ (fun _ _ => rfl))
   | stopRead => exact handOff_indep foreign _ _ stopReadInLoop_indep
   | startRead => exact handOff_indep foreign _ _ startReadInLoop_indep
+  | setWc k => exact indep_of_fields _ (fun _ _ => rfl)
+  | setHwm k m => exact indep_of_fields _ (fun _ _ => rfl)
 
 theorem actLoop_indep (a : Act) : Indep (fun c => actLoop c a) := act_indep false a
 theorem actForeign_indep (a : Act) : Indep (fun c => actForeign c a) := act_indep true a
@@ -218,12 +221,12 @@ theorem handleRead_indep : Indep handleRead :=
     (fun r => indep_comp (indep_comp popRead_indep (indep_emit _)) (handleReadRes_indep r))
 
 theorem afterDrain_indep : Indep afterDrain := by
-  have h2 : Indep (fun c1 : Conn => if drainWC c1.hasWC then enqueue c1 .writeComplete else c1) :=
-    indep_ite (fun _ _ => Iff.rfl) (enqueue_indep _) indep_self
+  have h2 : Indep (fun c1 : Conn => if drainWC c1.hasWC then enqueue c1 (.writeComplete (bindCb wcBindDrain c1.wcId)) else c1) :=
+    indep_ite (fun _ _ => Iff.rfl) (indep_of_fields _ (fun _ _ => rfl)) indep_self
   have h3 : Indep (fun c2 : Conn => if drainShutdown c2.st then
       handOff c2 false drainShutdownDispatch .drainShutdownInLoop shutdownInLoop else c2) :=
     indep_ite (fun _ _ => Iff.rfl) (handOff_indep _ _ _ shutdownInLoop_indep) indep_self
-  exact indep_comp (f := fun c => (fun c1 : Conn => if drainWC c1.hasWC then enqueue c1 .writeComplete else c1)
+  exact indep_comp (f := fun c => (fun c1 : Conn => if drainWC c1.hasWC then enqueue c1 (.writeComplete (bindCb wcBindDrain c1.wcId)) else c1)
     (disableWriting c)) (indep_comp disableWriting_indep h2) h3
 
 theorem handleWriteRes_indep (r : WriteRes) : Indep (fun c => handleWriteRes c r) := by
@@ -303,8 +306,12 @@ theorem runTask_indep (t : Task) : Indep (fun c => runTask c t) := by
   | forceCloseInLoop =>
     exact indep_ite (fun _ _ => Iff.rfl) hraw (indep_ite (fun _ _ => Iff.rfl) handleClose_indep indep_self)
   | connectDestroyed => exact indep_ite (fun _ _ => Iff.rfl) hraw connectDestroyed_indep
-  | writeComplete => exact indep_ite (fun _ _ => Iff.rfl) hraw (callback_indep _ _)
-  | highWater n => exact indep_ite (fun _ _ => Iff.rfl) hraw (callback_indep _ _)
+  | writeComplete b =>
+    exact indep_ite (fun _ _ => Iff.rfl) hraw
+      (indep_bind (fun c => c.wcId) (fun k c => callback c .wc (.wc (b.resolve k))) (fun _ _ => rfl) (fun _ => callback_indep _ _))
+  | highWater b n =>
+    exact indep_ite (fun _ _ => Iff.rfl) hraw
+      (indep_bind (fun c => c.hwmId) (fun k c => callback c .hwm (.hwm (b.resolve k) n)) (fun _ _ => rfl) (fun _ => callback_indep _ _))
   | startReadInLoop => exact indep_ite (fun _ _ => Iff.rfl) hraw startReadInLoop_indep
   | stopReadInLoop => exact indep_ite (fun _ _ => Iff.rfl) hraw stopReadInLoop_indep
   | addDelayTimer d => exact indep_ite (fun _ _ => Iff.rfl) (addTimer_indep d) (addTimer_indep d)
